@@ -37,6 +37,12 @@ func modesFor(p *program, tier string) (out []string) {
 	if p.redefAll {
 		out = append(out, "redefall", "compredefall")
 	}
+	for _, i := range p.unbind {
+		out = append(out, "unbind:"+strconv.Itoa(i), "compunbind:"+strconv.Itoa(i))
+	}
+	for _, i := range p.regen {
+		out = append(out, "regen:"+strconv.Itoa(i), "compregen:"+strconv.Itoa(i))
+	}
 	if !p.stateful && !p.noEarly {
 		out = append(out, "early", "compearly")
 	}
@@ -153,6 +159,59 @@ func buildHistory(p *program, perm []int, mode string, uniq func(string) string)
 		}
 		add('E', slotBack, "", "redef", chkOK)
 		add('E', slotMain, "", "after-restore", chkExact)
+		// the main read (and compiled) BETWEEN the second and the third definition must see the third one too
+		add('E', slotMain2, "", "fresh-after-restore", chkExact)
+	case "regen", "compregen":
+		// the generic function is defined AGAIN (defgeneric evaluated a second time), then its method with the alternative
+		// body: call sites that existed all along, and a fresh one, must reach the new method
+		target, cerr := strconv.Atoi(mode[strings.IndexByte(mode, ':')+1:])
+		if cerr != nil || target < 0 || len(p.alts) <= target+1 || p.alts[target+1] == "" || !strings.HasPrefix(p.defs[target], "(defgeneric ") {
+			return nil, fmt.Errorf("bad defgeneric target in %q", mode)
+		}
+		comp := cls == "compregen"
+		defEach(comp)
+		readMain(slotMain, comp)
+		add('E', slotMain, "", "main", chkExact)
+		for k, text := range []string{p.defs[target], p.alts[target+1]} {
+			add('R', slotAlt+k*10, uniq(text), "", chkNone)
+			if comp {
+				add('C', slotAlt+k*10, "", "compile-def", chkOK)
+			}
+			add('E', slotAlt+k*10, "", "redef", chkOK)
+		}
+		add('E', slotMain, "", "after-redef", chkExact)
+		readMain(slotMain2, comp)
+		add('E', slotMain2, "", "fresh-after-redef", chkExact)
+	case "unbind", "compunbind":
+		// the function is made unbound (fmakunbound), the same main is evaluated (outcome not constrained: the statement
+		// does not speak of fmakunbound), then the function is defined again with its alternative text: the call sites
+		// that existed all along, and a fresh one, must reach the new definition
+		target, cerr := strconv.Atoi(mode[strings.IndexByte(mode, ':')+1:])
+		if cerr != nil || target < 0 || len(p.alts) <= target || p.alts[target] == "" {
+			return nil, fmt.Errorf("bad fmakunbound target in %q", mode)
+		}
+		name := defName(p.defs[target])
+		if name == "" {
+			return nil, fmt.Errorf("definition %d of %s is not a defun", target, p.id)
+		}
+		comp := cls == "compunbind"
+		defEach(comp)
+		readMain(slotMain, comp)
+		add('E', slotMain, "", "main", chkExact)
+		add('R', slotAlt, uniq("(fmakunbound '"+name+")"), "", chkNone)
+		if comp {
+			add('C', slotAlt, "", "compile-def", chkOK)
+		}
+		add('E', slotAlt, "", "unbind", chkOK)
+		add('E', slotMain, "", "after-unbind", chkLenient)
+		add('R', slotBack, uniq(p.alts[target]), "", chkNone)
+		if comp {
+			add('C', slotBack, "", "compile-def", chkOK)
+		}
+		add('E', slotBack, "", "redef", chkOK)
+		add('E', slotMain, "", "after-redef", chkExact)
+		readMain(slotMain2, comp)
+		add('E', slotMain2, "", "fresh-after-redef", chkExact)
 	case "redefall", "compredefall":
 		// every definition that has an alternative is redefined (callee first: natural order reversed), then main
 		comp := cls == "compredefall"
@@ -199,4 +258,17 @@ func buildHistory(p *program, perm []int, mode string, uniq func(string) string)
 		return nil, fmt.Errorf("unknown mode %q", mode)
 	}
 	return
+}
+
+// defName: the function name of a (defun NAME ..) text.
+func defName(def string) string {
+	const pre = "(defun "
+	if !strings.HasPrefix(def, pre) {
+		return ""
+	}
+	rest := def[len(pre):]
+	if i := strings.IndexByte(rest, ' '); 0 < i {
+		return rest[:i]
+	}
+	return ""
 }
